@@ -113,6 +113,11 @@ def _steps(rng, clock, failing, fail_mode, open_steps=0):
     n = rng.choice([0, 1, 1, 2, 2, 3, 4]) if not failing else rng.choice([1, 1, 2, 3, 4])
     n = max(n, open_steps)
     steps = []
+    # which steps are left open: the trailing ones, or -- a snapshot taken while several lcc.Thread workers of one test are at
+    # work, each in a step of its own -- any of them (an open step may be followed by steps that have ended)
+    open_at = set(range(n - open_steps, n))
+    if open_steps and rng.random() < 0.5:
+        open_at = set(rng.sample(range(n), open_steps))
     for i in range(n):
         if steps and rng.random() < 0.25 and steps[-1]["end"] is not None:
             # a step from another thread: starts while the previous one is still running
@@ -120,8 +125,12 @@ def _steps(rng, clock, failing, fail_mode, open_steps=0):
         else:
             start = clock.tick()
         logs = [_ok_log(rng, clock) for _ in range(rng.choice([0, 1, 1, 2, 3]))]
-        steps.append({"description": _text(rng) or "step", "start": start, "end": None, "logs": logs})
-        if i < n - open_steps:
+        text = _text(rng) or "step"
+        if steps and rng.random() < 0.3:
+            # the step a thread started by the test opens bears the description of its creator's current step
+            text = steps[-1]["description"]
+        steps.append({"description": text, "start": start, "end": None, "logs": logs})
+        if i not in open_at:
             steps[-1]["end"] = clock.tick()
             if not failing and rng.random() < 0.12:
                 # began and ended within the same millisecond (saved reports round to the millisecond): finished, zero duration
